@@ -619,19 +619,35 @@ func cmdCheck(args []string) {
 	}
 	// race-mode companion (the "no data race" clause): same workloads in a -race binary
 	raceBin := ""
-	if p.RaceCompanion != "" && runsOverride == 0 {
+	var raceComps []string // RaceCompanion may name several, separated by commas
+	for _, rc := range strings.Split(p.RaceCompanion, ",") {
+		if rc = strings.TrimSpace(rc); rc != "" {
+			raceComps = append(raceComps, rc)
+		}
+	}
+	if len(raceComps) > 0 && runsOverride == 0 {
 		raceBin = pinBinary(buildHarness(true), tmp)
-		if cp, ok := listProps(raceBin, tmp)[p.RaceCompanion]; ok {
-			n := cp.QuickRuns
-			if tier == "thorough" {
-				n = cp.ThoroughRuns
+		rprops := listProps(raceBin, tmp)
+		for ri, rc := range raceComps {
+			if cp, ok := rprops[rc]; ok {
+				n := cp.QuickRuns
+				if tier == "thorough" {
+					n = cp.ThoroughRuns
+				}
+				base := 1<<25 + ri<<21
+				name := "race"
+				if ri > 0 {
+					name = "race:" + rc
+				}
+				batches = append(batches, batch{name: name, from: base, to: base + n, avoid: avoid, prop: rc, bin: raceBin, race: true})
 			}
-			batches = append(batches, batch{name: "race", from: 1 << 25, to: 1<<25 + n, avoid: avoid, prop: p.RaceCompanion, bin: raceBin, race: true})
 		}
 	}
 	binFor := func(class string) (string, string, bool) {
-		if p.RaceCompanion != "" && strings.HasPrefix(class, p.RaceCompanion+"/") {
-			return raceBin, p.RaceCompanion, true
+		for _, rc := range raceComps {
+			if strings.HasPrefix(class, rc+"/") {
+				return raceBin, rc, true
+			}
 		}
 		for _, comp := range p.Companions {
 			if strings.HasPrefix(class, comp+"/") {
@@ -653,8 +669,13 @@ func cmdCheck(args []string) {
 	}
 	var jobs []job
 	for _, b := range batches {
-		for f := b.from; f < b.to; f += slice {
-			t := f + slice
+		sl := slice
+		if b.race && sl > 40 {
+			// short batches: a data-race replay re-executes the batch up to the reporting run
+			sl = 40
+		}
+		for f := b.from; f < b.to; f += sl {
+			t := f + sl
 			if t > b.to {
 				t = b.to
 			}
@@ -770,18 +791,51 @@ func cmdCheck(args []string) {
 		// replay verification in fresh processes
 		ok := true
 		var hashes []string
-		for rep := 0; rep < 2; rep++ {
-			cls, lh, err := replayFile(cbin, tmp, cprop, final, crace)
-			if err != nil || cls != c {
-				ok = false
-				fmt.Printf("vdriver: replay of %s gave class %q (want %q) err=%v\n", final, cls, c, err)
-				break
+		if strings.Contains(c, "/data-race:") {
+			// The schedule of a race-mode run replays exactly (its event-log hash must
+			// be the same in every attempt); whether ThreadSanitizer REPORTS the pair
+			// it ran into is probabilistic per process (its shadow cells keep a few
+			// accesses per word and evict at random).  A report is accepted when a
+			// fresh process re-executing the worker's batch up to that run reports the
+			// same class at least once in raceReplayAttempts attempts.
+			seen := false
+			for rep := 0; rep < raceReplayAttempts && !(seen && len(hashes) >= 2); rep++ {
+				cls, lh, err := replayFile(cbin, tmp, cprop, final, crace)
+				if err != nil {
+					fmt.Printf("vdriver: replay of %s failed: %v\n", final, err)
+					ok = false
+					break
+				}
+				hashes = append(hashes, lh)
+				if cls == c {
+					seen = true
+				}
 			}
-			hashes = append(hashes, lh)
-		}
-		if ok && len(hashes) == 2 && hashes[0] != hashes[1] {
-			ok = false
-			fmt.Printf("vdriver: replay of %s is not deterministic (log hashes %v)\n", final, hashes)
+			for _, h := range hashes {
+				if h != hashes[0] {
+					ok = false
+					fmt.Printf("vdriver: replay of %s is not deterministic (log hashes %v)\n", final, hashes)
+					break
+				}
+			}
+			if ok && !seen {
+				ok = false
+				fmt.Printf("vdriver: %d replays of %s did not report class %q again\n", len(hashes), final, c)
+			}
+		} else {
+			for rep := 0; rep < 2; rep++ {
+				cls, lh, err := replayFile(cbin, tmp, cprop, final, crace)
+				if err != nil || cls != c {
+					ok = false
+					fmt.Printf("vdriver: replay of %s gave class %q (want %q) err=%v\n", final, cls, c, err)
+					break
+				}
+				hashes = append(hashes, lh)
+			}
+			if ok && len(hashes) == 2 && hashes[0] != hashes[1] {
+				ok = false
+				fmt.Printf("vdriver: replay of %s is not deterministic (log hashes %v)\n", final, hashes)
+			}
 		}
 		if !ok {
 			fmt.Printf("NONREPLAYABLE property=%s class=%s (withheld; simulator problem)\n", id, c)
@@ -825,6 +879,9 @@ func matchKnown(l []knownFinding, class string) *knownFinding {
 	}
 	return nil
 }
+
+// raceReplayAttempts: see the triage loop in cmdCheck.
+const raceReplayAttempts = 10
 
 func replayFile(bin, tmp, id, file string, race ...bool) (class, logHash string, err error) {
 	out := filepath.Join(tmp, "replay-out.json")
@@ -872,6 +929,10 @@ func doReplay(bin, tmp, id, file string) int {
 		id = f.Property
 	}
 	cls, lh, err := replayFile(bin, tmp, id, file, isRace)
+	for rep := 1; isRace && err == nil && cls == "" && rep < raceReplayAttempts; rep++ {
+		// a data-race report is probabilistic per process (see cmdCheck); the schedule is not
+		cls, lh, err = replayFile(bin, tmp, id, file, isRace)
+	}
 	if err != nil {
 		fmt.Println("vdriver: replay failed:", err)
 		return 2
@@ -968,7 +1029,7 @@ func main() {
 		cmdSelftest(os.Args[2:])
 	case "build":
 		ensureSimgen()
-		bin := buildHarness(false)
+		bin := buildHarness(len(os.Args) > 2 && os.Args[2] == "--race")
 		fmt.Println("vdriver: harness at", bin)
 	default:
 		die(2, "unknown command %q", os.Args[1])
